@@ -455,7 +455,7 @@ def canon_model(case, m):
         elif tm[0] == 4:
             tm[1] = opd(tm[1])
         out.append([ph, bd, tm])
-    return [0, out], m[2]
+    return [0, out], list(m[2:])
 
 
 OPERAND_POS = {1: (5, 6), 2: (4, 5), 3: (4, 5), 4: (5,), 5: (3, 4, 5), 6: (4,), 7: (3,), 8: (2, 3)}
